@@ -465,6 +465,12 @@ class Prop:
 
 
 def _scratch_coq():
+    if SCRATCH and os.path.isdir(COQ):
+        # a scratch build directory that is used again: bring its sources up to date with /verif/coq (a stale
+        # copy would compare the current harness with an old model)
+        with Lock("coq"):
+            run_cmd(["rsync", "-a", "--include=*/", "--include=*.v", "--include=_CoqProject", "--include=Extract.v.tmpl",
+                     "--exclude=*", os.path.join(VERIF, "coq") + "/", COQ + "/"], check=False)
     if SCRATCH and not os.path.isdir(COQ):
         os.makedirs(BUILD, exist_ok=True)
         with Lock("coq"):     # the scratch lock; the source tree is only read
